@@ -252,7 +252,7 @@ func checkStateView(c *core.Ctx, rule string) {
 			p := core.Path(r.Results[0])
 			descr = append(descr, p)
 			parts := strings.Split(p, ".")
-			if !(len(parts) == 3 && parts[0] == fn.Params[0].Name() && parts[1] == "state") {
+			if !(len(parts) == 3 && parts[0] == core.ParamName(fn.Params[0]) && parts[1] == "state") {
 				good = false
 			}
 		}
@@ -346,6 +346,12 @@ func checkModeFree(c *core.Ctx, rule, key string, fn *ssa.Function, isRunTx bool
 				for _, in := range blk.Instrs {
 					if st, ok := in.(*ssa.Store); ok {
 						if fa, ok := st.Addr.(*ssa.FieldAddr); ok && fieldNameOf(fa) == "Code" && strings.HasSuffix(fa.X.Type().String(), "transaction.Response") {
+							// building an accepting response (code OK) in one mode only is what an
+							// early `return Response{Code: OK}` of the other mode amounts to; only a
+							// rejecting code that one mode alone can produce makes the modes disagree
+							if k, isK := core.ConstInt(st.Val); isK && k == 0 {
+								continue
+							}
 							bad++
 							c.Bad(rule, key+"/mode-dependent-code-store", st.Pos(), "the response code is overwritten in code that executes only in one execution mode")
 						}
